@@ -149,25 +149,36 @@ func c14Keygen(c *ctx) {
 	if fn == nil {
 		return
 	}
-	gens := core.CallsTo(fn, "~/common.GetRandomSafePrimesConcurrent")
+	// the function and the private helpers it is factored into are read as one body
+	callsTo := func(name string) []ssa.CallInstruction {
+		var out []ssa.CallInstruction
+		for _, g := range unitFuncs(fn) {
+			if g.Parent() == nil {
+				out = append(out, core.CallsTo(g, name)...)
+			}
+		}
+		return out
+	}
+	rt := func(v ssa.Value) *T { return core.FrameTerm(fn, v) }
+	gens := callsTo("~/common.GetRandomSafePrimesConcurrent")
 	if len(gens) != 1 {
 		c.r.Bad(rule, fkey(rule, fn, "generator-call"), c.fpos(fn), fmt.Sprintf("expected one safe-prime generator call, found %d", len(gens)))
 		return
 	}
 	gen := gens[0].(*ssa.Call)
 	// GetRandomSafePrimesConcurrent(ctx, bitLen, numPrimes, concurrency, rand)
-	bits := core.TermOf(gen.Call.Args[1])
+	bits := rt(gen.Call.Args[1])
 	half := func(t *T) bool {
 		// modulusBitLen/2 as machine integer
 		return t.Op == "bin/" && t.Args[0].Key() == paramTerm(fn, 2).Key() && constIs(t.Args[1], 2)
 	}
 	two := constIs(core.TermOf(gen.Call.Args[2]), 2)
-	okRand := core.TermOf(gen.Call.Args[4]).Key() == paramTerm(fn, 1).Key()
+	okRand := rt(gen.Call.Args[4]).Key() == paramTerm(fn, 1).Key()
 	c.r.Check(half(bits) && two && okRand, rule, fkey(rule, fn, "two-primes-of-half-length"), c.pos(gen),
 		"GetRandomSafePrimesConcurrent(ctx, modulusBitLen/2, 2, …, rand)", fmt.Sprintf("generator called with bit length %s and count %s (need modulusBitLen/2 and 2) or not with the rand parameter", bits, core.TermOf(gen.Call.Args[2])))
 
 	// P, Q := sgps[0].SafePrime(), sgps[1].SafePrime()
-	sp := core.CallsTo(fn, "(*~/common.GermainSafePrime).SafePrime")
+	sp := callsTo("(*~/common.GermainSafePrime).SafePrime")
 	idxs := map[int64]ssa.Value{}
 	for _, cs := range sp {
 		call := cs.(*ssa.Call)
@@ -190,7 +201,7 @@ func c14Keygen(c *ctx) {
 	guardOK := false
 	var guardW string
 	for _, b := range nilErrReturnBlocks(fn, 2) {
-		for _, f := range core.TFactsAt(b, 0) {
+		for _, f := range core.TFactsAt(b, 1) {
 			if f.Kind != core.FInt || f.X == nil || f.Y == nil {
 				continue
 			}
@@ -243,7 +254,7 @@ func c14Keygen(c *ctx) {
 				why += name + " is not set; "
 				return
 			}
-			t := core.TermOf(v)
+			t := rt(v)
 			if !m(t) {
 				ok = false
 				why += fmt.Sprintf("%s is %s; ", name, t.Key())
